@@ -656,11 +656,17 @@ static inline flatcc_builder_ref_t emit_front(flatcc_builder_t *B, iov_state_t *
      * that by limiting the lower end to SOFFSET_MIN, and the upper end
      * at emit_back to SOFFSET_MAX.
      */
-    ref = B->emit_start - (flatcc_builder_ref_t)iov->len;
-    if ((iov->len > 16 && iov->len - 16 > FLATBUFFERS_UOFFSET_MAX) || ref >= B->emit_start) {
+    /*
+     * Test in 64 bits before computing the reference: `iov->len` must
+     * not be truncated, and signed overflow is undefined so a test on
+     * the wrapped result can be optimized away.
+     */
+    if (iov->len == 0 || iov->len > (size_t)FLATBUFFERS_SOFFSET_MAX ||
+            (int64_t)B->emit_start - (int64_t)iov->len < (int64_t)FLATBUFFERS_SOFFSET_MIN) {
         check(0, "buffer too large to represent");
         return 0;
     }
+    ref = B->emit_start - (flatcc_builder_ref_t)iov->len;
     if (B->emit(B->emit_context, iov->iov, iov->count, ref, iov->len)) {
         check(0, "emitter rejected buffer content");
         return 0;
